@@ -324,11 +324,11 @@ func ctorResult(fn *ssa.Function, v ssa.Value, method string, i int64) bool {
 
 func ruleCLIArgs(p *Prog, r *Report) {
 	type spec struct {
-		fn, op           string
-		recvCtor         string
-		recvIdx          int64
-		argCtor          string
-		argIdx           int64
+		fn, op   string
+		recvCtor string
+		recvIdx  int64
+		argCtor  string
+		argIdx   int64
 	}
 	specs := []spec{
 		{"compare", "Compare", "NewVersion", 0, "NewVersion", 1},
